@@ -2,6 +2,7 @@ package main
 
 import (
 	"fmt"
+	"os"
 	"strconv"
 	"time"
 )
@@ -38,6 +39,7 @@ type Profile struct {
 	PFlood      float64         // per run: a flood (every delegator on every validator in every denom, then 18 blocks in which everybody exits a little from one validator: more than 100 delegation records, queue buckets and index keys of one validator), a slash of that validator and a jump past all completion times
 	NoLongAddr  bool            // every delegator has a key (the ABCI differential signs transactions)
 	PDrain      float64         // per block: start a drain (every known position of one asset exits in full over two blocks, then a new staking cycle begins)
+	PGhost      float64         // per run: one validator-removal scenario (alliance stake on a validator that x/staking then removes: everybody including the operator leaves it while the module holds no staking delegation there)
 	PBurst      float64         // per block: start a packed scenario (same-block multi-denom/multi-validator exits, fan-in redelegations, ...)
 	PExport     float64         // per block: export/import (hard fork) at the block boundary
 	Clean       map[string]bool // preconditions of open known findings the generator must avoid (clean mode)
@@ -169,6 +171,7 @@ type genState struct {
 	futureOps   map[int][]Op // block index -> ops scheduled by a burst
 	futureSlash map[int][]Op
 	forceDt     map[int]DtSpec // block gaps fixed by a flood
+	futureGhost int            // block index of this run's validator-removal scenario (0 = none)
 }
 
 func (g *genState) amtDelegate(denom int) *Amt {
@@ -491,7 +494,14 @@ func GenSchedule(prop string, seed, run uint64, p *Profile) *Schedule {
 		}
 		g.flood(rng.Range(2, nb-32))
 	}
+	if p.PGhost > 0 && rng.Chance(p.PGhost) {
+		// per run, so that most runs of the property stay free of the open finding this scenario leads to
+		g.futureGhost = rng.Range(1, max(1, nb-4))
+	}
 	for bi := 0; bi < nb; bi++ {
+		if bi == g.futureGhost {
+			g.ghost(bi)
+		}
 		b := Block{Dt: g.genDt(), Proposer: rng.Intn(8)}
 		if d, ok := g.forceDt[bi]; ok {
 			b.Dt = d
@@ -581,6 +591,11 @@ var tierName = "quick"
 
 func profileFor(prop string) *Profile {
 	p := profileForTier(prop)
+	if v := os.Getenv("VERIF_PGHOST"); v != "" { // exploration knob, not used by any registered command
+		if f, err := strconv.ParseFloat(v, 64); err == nil {
+			p.PGhost = f
+		}
+	}
 	if tierName == "thorough" {
 		p.MaxBlocks = p.MaxBlocks * 3 / 2
 		p.MaxOps += 2
@@ -594,8 +609,10 @@ func profileForTier(prop string) *Profile {
 	p.Name = prop
 	switch prop {
 	case "C01":
+		p.PGhost = 0.1
 		p.PBurst = 0.08
 	case "C03":
+		p.PGhost = 0.1
 		p.PDrain = 0.08
 		p.PBurst = 0.05
 		p.TakeRates = []string{"0", "0.000001", "0.001", "0.25", "0.5", "0.99"}
@@ -674,6 +691,7 @@ func profileForTier(prop string) *Profile {
 		p.W["unjail"] = 5
 		p.PSlash, p.PEvidence, p.PDowntime = 0.1, 0.04, 0.04
 	case "C10":
+		p.PGhost = 0.1
 		p.W["n_delegate"], p.W["n_undelegate"], p.W["n_redelegate"] = 14, 14, 5
 		p.W["unjail"] = 6
 		p.W["gov_update"] = 6
@@ -696,10 +714,12 @@ func profileForTier(prop string) *Profile {
 		p.PSlash = 0.12
 		p.Dust, p.Huge = 0.25, 0.4
 	case "C05":
+		p.PGhost = 0.12
 		p.PDrain = 0.06 // entering an asset again after everybody left
 		p.PSlash, p.PEvidence, p.PDowntime = 0.12, 0.05, 0.05
 		p.MaxBlocks = 40
 	case "C20":
+		p.PGhost = 0.1
 		p.PFlood = 0.04
 		p.PBurst = 0.12
 		p.W["undelegate"], p.W["redelegate"] = 26, 22
@@ -795,6 +815,36 @@ func (g *genState) drain(bi int) {
 	who, val := r.Intn(g.cfg.Delegators), r.Intn(g.nvals)
 	g.futureOps[bi+2] = append(g.futureOps[bi+2], Op{K: "delegate", Who: who, Val: val, Denom: d, Amt: &Amt{Abs: unit.MulRaw(int64(r.Range(1, 50))).String()}})
 	g.addPos(who, val, d)
+}
+
+// ghost schedules the removal of a validator that carries alliance stake: x/staking removes a validator
+// once it is unbonded and nobody holds shares of it; the alliance module's own staking delegation keeps a
+// validator alive, so the scenario uses validators the module never delegated to (created outside the
+// bonded set, or jailed before the first alliance deposit) and lets the operator and every native
+// delegator leave.
+func (g *genState) ghost(bi int) {
+	r := g.rng
+	var v int
+	if g.extra < MaxExtraValidators && r.Chance(0.7) {
+		v = len(g.cfg.Validators) + g.extra
+		g.extra++
+		g.nvals = len(g.cfg.Validators) + g.extra
+		g.futureOps[bi] = append(g.futureOps[bi], Op{K: "create_validator", Val: v, Amt: &Amt{Abs: []string{"1", "1000", "1000000"}[r.Intn(3)]}})
+	} else {
+		v = r.Intn(g.nvals)
+		g.futureSlash[bi] = append(g.futureSlash[bi], Op{K: "slash_direct", Val: v, Fraction: slashFractions[r.Intn(len(slashFractions))]})
+	}
+	who, d := r.Intn(g.cfg.Delegators), r.Intn(len(g.cfg.Assets))
+	at := bi + r.Intn(2)
+	g.futureOps[at] = append(g.futureOps[at], Op{K: "delegate", Who: who, Val: v, Denom: d, Amt: g.amtDelegate(d)})
+	g.addPos(who, v, d)
+	for n := 0; n < g.cfg.Natives; n++ {
+		g.futureOps[bi+1] = append(g.futureOps[bi+1], Op{K: "n_undelegate", Who: n, Val: v, Amt: &Amt{All: true}})
+	}
+	g.futureOps[bi+1] = append(g.futureOps[bi+1], Op{K: "n_undelegate", Self: true, Val: v, Amt: &Amt{All: true}})
+	// past the validator's own unbonding period (a validator that was bonded is removed when it matures)
+	g.forceDt[bi+2] = DtSpec{Ns: g.unbondNs + int64(r.Range(0, 3))*int64(time.Second)}
+	g.futureOps[bi+3] = append(g.futureOps[bi+3], Op{K: "claim", Who: who, Val: v, Denom: d}, Op{K: "undelegate", Who: who, Val: v, Denom: d, Amt: &Amt{All: true}})
 }
 
 func (g *genState) burst(bi int) {
